@@ -131,6 +131,28 @@ def parseAnBChecked (input : List Char) : Except AnBError (Int × Int) :=
 `index - offset` nor `n / step_size` can leave the range: the mathematical function -/
 def isMatchedChecked (stepSize offset : Int) (index : Nat) : Bool := isMatched stepSize offset index
 
+def i64Max : Int := 9223372036854775807
+def i64Min : Int := -9223372036854775808
+def inI64 (x : Int) : Bool := decide (i64Min ≤ x) && decide (x ≤ i64Max)
+
+/-- `FunctionalPosition::is_matched(index)` as the code computes it since FIX_C11_3, literally:
+in `i64`, with every place where the `i64` computation could leave its range made explicit
+(`none` = overflow panic in a debug build).  `index as i64` is an `as` cast (wraps silently),
+`+ 1`, `index - offset` and `n / step_size` (`i64::MIN / -1`) are checked operations.
+`Props/C20.lean` (`isMatchedI64_exact`): for `i32` operands and `index + 1 + 2^31 < 2^63` this
+is `some (isMatched …)`. -/
+def isMatchedI64 (stepSize offset : Int) (index : Nat) : Option Bool :=
+  let idx0 : Int := Int.bmod (index : Int) (2 ^ 64)
+  if !(inI64 (idx0 + 1)) then none
+  else
+    let idx := idx0 + 1
+    if stepSize == 0 then some (idx == offset)
+    else
+      let n := idx - offset
+      if !(inI64 n) then none
+      else if n == i64Min && stepSize == -1 then none
+      else some (decide (Int.tdiv n stepSize ≥ 0) && Int.tmod n stepSize == 0)
+
 /-- `resolve_char(opt, dft, len)` -/
 def resolveChar (opt : Option Int) (dft len : Int) : Nat :=
   let c := opt.getD dft
